@@ -121,6 +121,13 @@ func VSeqStep(l List[int], pre []int, ext VExt) []int {
 			want[j] = a
 		}
 	case VOpSort:
+		if j := v.CfgOr("ascbut", -1); j >= 0 {
+			// wide Sort runs: the content is any strictly ascending sequence followed by j arbitrary elements, so that the sort's
+			// comparisons among the first n-j elements are decided and only the last j fork (n! orders otherwise)
+			for i := 1; i < n-j; i++ {
+				v.Assume(pre[i-1] < pre[i])
+			}
+		}
 		l.Sort(vCmp)
 		got := l.Values()
 		v.Assert(len(got) == n, "C03:sort-length")
